@@ -56,6 +56,8 @@ func Main(args []string) int {
 		return cmdList(args[1:])
 	case "replay":
 		return cmdReplay(args[1:])
+	case "names":
+		return cmdNames(args[1:])
 	case "scenario":
 		return cmdScenario(args[1:])
 	}
